@@ -34,7 +34,7 @@ CHECKS = {
     level="exploration",
     technique="differential testing of the real binary against itself: N fresh processes (fresh map-iteration orders) x environment and working-directory variants on hand-built multi-defect documents and rapid-generated configurations; metamorphic key permutations of every YAML mapping",
     text="Byte-identity of stdout and of the generated file across repeated executions and neutral perturbations, and of the generated file across key permutations; inputs are built so that every order-sensitive map holds at least two entries and every defect class is present at least twice.",
-    note="Probabilistic for map-order dependence: a 2-entry site escapes N runs with probability 2^-(N-1) (3% quick, 2e-6 thorough); stdout is not claimed under key permutations.",
+    note="Probabilistic for map-order dependence: a 2-entry site escapes N runs with probability 2^-(N-1) (0.2% quick with 10 runs, 1e-7 thorough with 24); stdout is not claimed under key permutations.",
     ref="DESIGN.md §4 C08"),
  "C09": dict(
     level="exploration",
